@@ -151,6 +151,23 @@ func e2eC17(repo, dir string, vals map[string]string) ([]string, error) {
 		bad = append(bad, fmt.Sprintf("field settings on the second of two declared int->int methods (different contexts) exit %d, want 1 and a diagnostic", code))
 	}
 	os.RemoveAll(filepath.Join(e.dir, "twosig"))
+	// argument vectors that are no valid command line - an unknown option or an option without its value, also
+	// behind the first package - fail the run: exit 1, a diagnostic, nothing written
+	os.RemoveAll(filepath.Join(e.dir, "good2/generated"))
+	bArgs := e.tree()
+	for _, args := range [][]string{
+		{"gen", "-bogus", "./good2"}, {"gen", "./good2", "-bogus"}, {"gen", "./good2", "-bogus", "./good"}, {"gen", "./good2", "-g"}, {"gen", "./good2", "-output-constraint"},
+		{"gen", "-g", "ignoreMissing", "./good2", "-cwd"}, {"gen", "-build-tags"}, {"gen"}, {"generate", "./good2"}, {"gen", "./good2", "-build-tags", "x"},
+	} {
+		code, _, se := e.run(args...)
+		if code != 1 || strings.TrimSpace(se) == "" {
+			bad = append(bad, fmt.Sprintf("invalid command line %q exits %d (want 1 and a diagnostic)", strings.Join(args, " "), code))
+		}
+		if d := sameTree(bArgs, e.tree()); len(d) > 0 {
+			bad = append(bad, fmt.Sprintf("invalid command line %q changed files: %s", strings.Join(args, " "), strings.Join(d, ", ")))
+			break
+		}
+	}
 	// a pattern that matches no loadable package fails the whole run
 	b1 := e.tree()
 	code, _, se = e.run("gen", "./good", "./doesnotexist")
@@ -308,6 +325,14 @@ func e2eC16(repo, dir string, vals map[string]string) ([]string, error) {
 	if code != 0 || strings.Contains(string(b), "//go:build") {
 		bad = append(bad, "empty -output-constraint still emits a constraint line")
 	}
+	// tags are handed to the loader as written (case matters to the go tool)
+	e.write("mixed/in.go", strings.Replace(e2eGood, "package good", "package mixed", 1))
+	e.write("mixed/use.go", "//go:build !codeGen\n\npackage mixed\n\nimport \"e2e/mixed/generated\"\n\nvar _ C = &generated.CImpl{}\n")
+	code, _, se = e.run("gen", "-build-tags", "codeGen", "-output-constraint", "!codeGen", "./mixed")
+	if _, err := os.Stat(filepath.Join(e.dir, "mixed/generated/generated.go")); code != 0 || err != nil {
+		bad = append(bad, "-build-tags codeGen: files behind the constraint !codeGen are not hidden while loading: "+firstLine(se))
+	}
+	os.RemoveAll(filepath.Join(e.dir, "mixed"))
 	// both switched off: no tag for loading, no constraint line
 	e.write("notagsboth/in.go", strings.Replace(e2eGood, "package good", "package notagsboth", 1))
 	code, _, se = e.run("gen", "-build-tags", "", "-output-constraint", "", "./notagsboth")
@@ -616,6 +641,23 @@ func e2eC15(repo, dir string, vals map[string]string) ([]string, error) {
 			os.RemoveAll(filepath.Join(e.dir, "cg"))
 		}
 	}
+	// modes of new files and directories do not depend on a permissive umask: 0644 and 0755 are what is asked for
+	for _, um := range []string{"000", "002"} {
+		os.RemoveAll(filepath.Join(e.dir, "um"))
+		e.write("um/in.go", "package um\n\n// goverter:converter\ntype C interface {\n\tConvert(source In) Out\n}\ntype In struct{ A int }\ntype Out struct{ A int }\n")
+		cmd := exec.Command("sh", "-c", "umask "+um+"; exec \"$0\" gen ./um", e.bin)
+		cmd.Dir = e.dir
+		cmd.Env = append(os.Environ(), "GOFLAGS=-mod=mod", "GOPROXY=off", "GOSUMDB=off", "GOTOOLCHAIN=local")
+		out, err := cmd.CombinedOutput()
+		fi, err2 := os.Stat(filepath.Join(e.dir, "um/generated/generated.go"))
+		di, err3 := os.Stat(filepath.Join(e.dir, "um/generated"))
+		if err != nil || err2 != nil || err3 != nil {
+			bad = append(bad, "umask "+um+": generation failed: "+firstLine(string(out)))
+		} else if fi.Mode().Perm() != 0o644 || di.Mode().Perm() != 0o755 {
+			bad = append(bad, fmt.Sprintf("umask %s: new file has mode %o (want 644), new directory %o (want 755)", um, fi.Mode().Perm(), di.Mode().Perm()))
+		}
+	}
+	os.RemoveAll(filepath.Join(e.dir, "um"))
 	// a package name equal to the directory name is still a name: the unnamed converter gets the normalised one
 	e.write("c4/in.go", "package c4\n\n// goverter:converter\n// goverter:output:file ../my_out/gen.go\n// goverter:output:package e2e/my_out:my_out\ntype C interface {\n\tConvert(source In) Out\n}\n\n// goverter:converter\n// goverter:output:file ../my_out/gen.go\ntype D interface {\n\tConvert(source In) Out\n}\ntype In struct{ A int }\ntype Out struct{ A int }\n")
 	code, _, _ = e.run("gen", "./c4")
@@ -752,6 +794,27 @@ func e2eTwoVariableBlocks(e *e2eEnv) []string {
 	return bad
 }
 
+// e2eC01: programs whose output spans several files of one package compile: helper names are unique per output
+// package whichever source package, file or format the converters come from.
+func e2eC01(repo, dir string, vals map[string]string) ([]string, error) {
+	e, err := newE2E(repo, dir)
+	if err != nil {
+		return nil, err
+	}
+	bad := e2eTwoVariableBlocks(e)
+	// two converters declared in two source packages, function format, two files of one output package
+	e.write("model/model.go", "package model\n\ntype Inner struct{ V int }\ntype OutInner struct{ V int }\ntype A struct{ I Inner }\ntype AO struct{ I OutInner }\ntype B struct {\n\tI Inner\n\tN int\n}\ntype BO struct {\n\tI OutInner\n\tN int\n}\n")
+	for _, p := range []struct{ pkg, src, tgt string }{{"sa", "A", "AO"}, {"sb", "B", "BO"}} {
+		e.write(p.pkg+"/in.go", "package "+p.pkg+"\n\nimport \"e2e/model\"\n\n// goverter:converter\n// goverter:output:format function\n// goverter:output:file ../shared/"+p.pkg+".gen.go\n// goverter:output:package e2e/shared\ntype C interface {\n\tConv"+p.src+"(source model."+p.src+") model."+p.tgt+"\n}\n")
+	}
+	if code, _, se := e.run("gen", "./sa", "./sb"); code != 0 {
+		bad = append(bad, "two function-format converters of two source packages writing two files of one output package: run fails: "+firstLine(se))
+	} else if out, err := e.goBuild("./shared/..."); err != nil {
+		bad = append(bad, "two function-format converters of two source packages writing two files of one output package: the package does not compile: "+firstLine(out))
+	}
+	return bad, nil
+}
+
 // e2eC09: regenerating over stale / longer / broken previous output gives the bytes of a clean generation,
 // and repeated runs in fresh processes give identical bytes and diagnostics.
 func e2eC09(repo, dir string, vals map[string]string) ([]string, error) {
@@ -782,6 +845,47 @@ func e2eC09(repo, dir string, vals map[string]string) ([]string, error) {
 			bad = append(bad, "repeated run changed the output")
 			break
 		}
+	}
+	// ... also when the previous output is visible to the loader (no output constraint; function and variables
+	// formats, whose helpers are package level names of the output package)
+	e.write("hn/in.go", "package hn\n\n// goverter:converter\n// goverter:output:format function\n// goverter:output:file ./hn.gen.go\n// goverter:output:package e2e/hn\ntype C interface {\n\tConvert(source Outer) OuterT\n}\n\n// goverter:variables\n// goverter:output:file ./hnv.gen.go\nvar (\n\tConvV func(source []Outer) []OuterT\n)\n\ntype Inner struct{ A int }\ntype InnerT struct{ A int }\ntype Outer struct {\n\tIn Inner\n\tL []Inner\n}\ntype OuterT struct {\n\tIn InnerT\n\tL []InnerT\n}\n")
+	var hnFirst string
+	for i := 0; i < 3; i++ {
+		code, _, se := e.run("gen", "-output-constraint", "", "./hn")
+		a, _ := os.ReadFile(filepath.Join(e.dir, "hn/hn.gen.go"))
+		b, _ := os.ReadFile(filepath.Join(e.dir, "hn/hnv.gen.go"))
+		cur := fmt.Sprintf("%d|%s|%s", code, a, b)
+		if i == 0 {
+			hnFirst = cur
+			if code != 0 {
+				bad = append(bad, "generation without output constraint fails: "+firstLine(se))
+				break
+			}
+		} else if cur != hnFirst {
+			bad = append(bad, fmt.Sprintf("run %d over the previous output (no output constraint, helpers at package level) differs from the clean generation: %s", i+1, firstLine(se)))
+			break
+		}
+	}
+	os.RemoveAll(filepath.Join(e.dir, "hn"))
+	// four converters writing four files of one directory under different package names: whatever goverter makes
+	// of that, every fresh process makes the same of it
+	{
+		src := "package od\n\n"
+		for i, n := range []string{"alpha", "beta", "gamma", "delta"} {
+			src += fmt.Sprintf("// goverter:converter\n// goverter:output:file ../odout/%s.go\n// goverter:output:package e2e/odout:%s\ntype C%d interface {\n\tConvert(source In) Out\n}\n\n", n, n, i)
+		}
+		e.write("od/in.go", src+"type In struct{ A int }\ntype Out struct{ A int }\n")
+		douts := map[string]bool{}
+		for i := 0; i < 24; i++ {
+			os.RemoveAll(filepath.Join(e.dir, "odout"))
+			code, _, se := e.run("gen", "./od")
+			douts[fmt.Sprintf("%d|%s", code, se)] = true
+		}
+		if len(douts) > 1 {
+			bad = append(bad, fmt.Sprintf("%d different outcomes in 24 fresh processes for four output files of one directory with different package names", len(douts)))
+		}
+		os.RemoveAll(filepath.Join(e.dir, "od"))
+		os.RemoveAll(filepath.Join(e.dir, "odout"))
 	}
 	// several extend functions with the same signature found by one pattern: which one is used must not
 	// depend on the process
@@ -1184,6 +1288,16 @@ func e2eC12(repo, dir string, vals map[string]string) ([]string, error) {
 			bad = append(bad, fmt.Sprintf("method-level %s reached the generated helper of a nested pair (exit %d, helper shows %q): %s", c.setting, code, c.leakText, firstLine(se)))
 		}
 	}
+	// a faulty line is reported where it was written: a failing extend given with -g names the command line,
+	// the same line in the doc comment names the declaration
+	e.write("loc/in.go", "package loc\n\n// goverter:converter\ntype C interface {\n\tConvert(source In) Out\n}\ntype In struct{ A int }\ntype Out struct{ A int }\n")
+	_, _, seG := e.run("gen", "-g", "extend DoesNotExist", "./loc")
+	e.write("loc/in.go", "package loc\n\n// goverter:converter\n// goverter:extend DoesNotExist\ntype C interface {\n\tConvert(source In) Out\n}\ntype In struct{ A int }\ntype Out struct{ A int }\n")
+	_, _, seD := e.run("gen", "./loc")
+	if !strings.Contains(seG, "extend") || strings.Contains(seG, "in.go:") || !strings.Contains(seD, "in.go:") {
+		bad = append(bad, "an extend line that cannot be resolved is not reported where it was written (-g: "+firstLine(seG)+" | doc comment: "+firstLine(seD)+")")
+	}
+	os.RemoveAll(filepath.Join(e.dir, "loc"))
 	// a long doc comment keeps its line order: of two lines for one setting the lower one wins, whatever the
 	// number of other lines around them (method and converter level)
 	{
@@ -1242,6 +1356,7 @@ func e2eC13(repo, dir string, vals map[string]string) ([]string, error) {
 
 var e2eScenarios = map[string]func(repo, dir string, vals map[string]string) ([]string, error){
 	"c13": e2eC13,
+	"c01": e2eC01,
 	"c12": e2eC12,
 	"c06": e2eC06,
 	"c19": e2eC19,
